@@ -44,6 +44,7 @@ def make_config(prop, rng, tier):
         "batch_max": rng.choice([1, 2, 3]),
         "p_inputs": rng.choice([0.0, 0.2, 0.5]),
         "p_interrupt": rng.choice([0.0, 0.0, 0.1, 0.25]),
+        "p_dance": rng.choice([0.0, 0.3, 0.6]) if fringe else rng.choice([0.0, 0.2, 0.4]),
         **({"max_boxes": rng.choice([10, 12, 14]), "max_steps": 30, "batch_max": 4}
            if tier == "thorough" and rng.random() < 0.3 else {}),
     }
@@ -133,8 +134,79 @@ def build_circuit(spec):
     return c
 
 
+def gen_register_dance(rng, cfg):
+    """A circuit that does little else than move registers around: preparations, post-selections,
+    measurements, discards and swaps at random positions, with X gates to tell outcomes apart.
+    The classical events (bits prepared, bits discarded or swapped) only in fringe runs."""
+    max_w, fringe = cfg["max_wires"], cfg.get("fringe")
+    wires, spec = [], []
+
+    def put(item, new=None, at=None, n=0):
+        spec.append(item)
+        if new is not None:
+            wires[at:at + n] = new
+    for step in range(rng.randint(3, 8)):
+        qpos = [i for i, w in enumerate(wires) if w == "q"]
+        bpos = [i for i, w in enumerate(wires) if w == "b"]
+        adjq = [i for i in range(len(wires) - 1) if wires[i] == wires[i + 1] == "q"]
+        adjb = [i for i in range(len(wires) - 1) if wires[i] == wires[i + 1] == "b"]
+        events = []
+        if len(wires) < max_w:
+            events += ["ket", "ket"] + (["bits"] * 2 if fringe else [])
+            if fringe and any(it["g"] == "Bra" for it in spec):
+                events += ["bits"] * 3      # bits prepared while post-selected tket bits exist
+        if qpos:
+            events += ["bra", "measure", "x", "discard"] + (["measure_nd"] if len(wires) < max_w else [])
+        if adjq:
+            events += ["swapq", "bra2", "measure2"]
+        if fringe and bpos:
+            events += ["discardb"]
+        if fringe and adjb:
+            events += ["swapb"]
+        if not events:
+            break
+        e = rng.choice(events)
+        if e == "ket":
+            n, at = rng.randint(1, min(2, max_w - len(wires))), rng.randint(0, len(wires))
+            put({"g": "Ket", "bits": [rng.randint(0, 1) for _ in range(n)], "at": at}, ["q"] * n, at, 0)
+        elif e == "bits":
+            n = rng.randint(1, min(2, max_w - len(wires)))
+            at = 0 if rng.random() < 0.4 else rng.randint(0, len(wires))
+            put({"g": "Bits", "bits": [0] * n, "at": at}, ["b"] * n, at, 0)
+        elif e == "x":
+            put({"g": "X", "at": rng.choice(qpos)})
+        elif e == "bra":
+            at = rng.choice(qpos)
+            put({"g": "Bra", "bits": [rng.randint(0, 1)], "at": at}, [], at, 1)
+        elif e == "bra2":
+            at = rng.choice(adjq)
+            put({"g": "Bra", "bits": [rng.randint(0, 1), rng.randint(0, 1)], "at": at}, [], at, 2)
+        elif e == "measure":
+            at = rng.choice(qpos)
+            put({"g": "Measure", "at": at}, ["b"], at, 1)
+        elif e == "measure2":
+            at = rng.choice(adjq)
+            put({"g": "Measure", "n": 2, "at": at}, ["b", "b"], at, 2)
+        elif e == "measure_nd":
+            at = rng.choice(qpos)
+            put({"g": "Measure", "destructive": False, "at": at}, ["q", "b"], at, 1)
+        elif e == "discard":
+            at = rng.choice(qpos)
+            put({"g": "Discard", "at": at}, [], at, 1)
+        elif e == "discardb":
+            at = rng.choice(bpos)
+            put({"g": "Discard", "bit": True, "at": at}, [], at, 1)
+        elif e == "swapq":
+            put({"g": "SWAP", "at": rng.choice(adjq)})
+        elif e == "swapb":
+            put({"g": "swapb", "at": rng.choice(adjb)})
+    return spec
+
+
 def gen_circuit_spec(rng, cfg):
     """A random circuit spec; tracks wire kinds ('q'/'b') itself."""
+    if rng.random() < cfg.get("p_dance", 0.0):
+        return gen_register_dance(rng, cfg)
     kinds, max_w = cfg["kinds"], cfg["max_wires"]
     wires, spec = [], []
     if cfg.get("fringe") and max_w >= 5 and rng.random() < 0.25:
